@@ -485,6 +485,22 @@ def _covering_targets(self, s, st, lo, hi):
 
 def s_For(self, s, st, frame):
     it = self.eval(s.iter, st)
+    # a loop over a literal / fully known short sequence runs exactly once per element: unroll it
+    items = None
+    if isinstance(it, Const) and isinstance(it.v, (list, tuple)) and len(it.v) <= 8:
+        items = [x if isinstance(x, Val) else Const(x, it.taint) for x in it.v]
+    elif isinstance(it, Tup) and len(it.items) <= 8 and not frame.loops:
+        items = list(it.items)
+    if items is not None and not any(isinstance(n, (ast.Break, ast.Continue)) for b in s.body for n in ast.walk(b)):
+        cur = st
+        for x in items:
+            if cur is None:
+                return None
+            self.bind(s.target, x, cur, s)
+            cur = self.exec_block(s.body, cur, frame)
+        if cur is not None and s.orelse:
+            cur = self.exec_block(s.orelse, cur, frame)
+        return cur
     strong = []
     if isinstance(it, Opaque) and it.what == 'range':
         lo, hi, step = it.args
